@@ -98,6 +98,19 @@ def shared(rng):
                                                                    ('piecewise', ('$s', ('Lt', X, I(0))), (('neg', '$s'), K('true'))))))]
 
 
+def multi_complex(rng):
+    """several distinct non-integer complex constants in one expression (their real / imaginary parts are temporaries while dumping)"""
+    cs = []
+    for _ in range(rng.choice((2, 3, 4, 6))):
+        if rng.random() < 0.5:
+            cs.append(('cdbl', rng.choice(FLOATS), rng.choice(FLOATS)))
+        else:
+            cs.append(CX(R(rng.randint(-9, 9), rng.choice((2, 3, 5, 7))), R(rng.randint(1, 9), rng.choice((2, 3, 5, 7)))))
+    syms = [X, Y, Z, S('w'), S('u'), S('v')]
+    terms = [('mul', c, syms[i % len(syms)]) if rng.random() < 0.6 else ('sin', ('add', c, syms[i % len(syms)])) for i, c in enumerate(cs)]
+    return ('func', 'f') + tuple(terms) if rng.random() < 0.5 else ('add',) + tuple(terms)
+
+
 def set_expr(rng):
     e = c27.expr(rng, rng.choice((0, 1, 2)))
     return c27.to_recipe(e)
@@ -105,6 +118,7 @@ def set_expr(rng):
 
 class C(Check):
     prop = 'C19'
+    configs = ['asan', 'rel']     # the plain build reuses freed addresses at once (ASan quarantines them), which matters for the archive's object tracking
 
     def run(self):
         rng = self.rng
@@ -123,10 +137,13 @@ class C(Check):
             elif r < 0.78:
                 pre = [('let', 'e', boolean(rng, 2))]
                 kind = 'boolean'
-            elif r < 0.88:
+            elif r < 0.85:
                 pre = [('let', 'e', set_expr(rng))]
                 kind = 'set'
-            elif r < 0.93:
+            elif r < 0.9:
+                pre = [('let', 'e', multi_complex(rng))]
+                kind = 'multi-complex'
+            elif r < 0.94:
                 pre = [('let', 'd', ('dummy', Q('t')) if rng.random() < 0.5 else ('dummy',)), ('let', 'e', ('add', ('sin', '$d'), ('mul', '$d', X), ('pow', '$d', I(2))))]
                 kind = 'dummy'
             else:
@@ -137,9 +154,14 @@ class C(Check):
             cid = 'e%d' % k
             cases.append((cid, stmts))
             meta[cid] = (kind, len(pre), stmts)
-        res, reps = run_cases('asan', cases, tag='c19', timeout=60)
-        check_process_reports(self, reps)
         self.seen = set()
+        for cfg in self.configs:
+            res, reps = run_cases(cfg, cases, tag='c19' + cfg, timeout=60)
+            check_process_reports(self, reps)
+            self.judge(cfg, res, meta)
+        self.min_evals = 5000
+
+    def judge(self, cfg, res, meta):
         for cid, (kind, npre, stmts) in meta.items():
             r = res.get(cid)
             if r is None:
@@ -151,7 +173,7 @@ class C(Check):
                 self.count('crash-while-constructing-the-input (judged by C40)')
                 continue
             if r.status == 'crashed':
-                self.viol(dict(crash_key(r), clause='crash', what=kind), dict(program=[render(s) for s in stmts][:len(r.stmts) + 1], crash=r.crash, config='asan'))
+                self.viol(dict(crash_key(r), clause='crash', what=kind, build=cfg), dict(program=[render(s) for s in stmts][:len(r.stmts) + 1], crash=r.crash, config=cfg))
                 continue
             se = r.s(npre)
             if r.status != 'ok' or se is None or se.st != 'ok':
@@ -189,10 +211,9 @@ class C(Check):
                 elif b.v['ptrs'] > a.v['ptrs']:
                     probs.append(('sharing', 'objects %s -> %s for %s distinct sub-expressions' % (a.v['ptrs'], b.v['ptrs'], a.v['classes'])))
             for what, detail in probs[:1]:
-                self.viol(dict(clause=what, top=top, what=kind), dict(program=prog + [render(('emit', ('roundtrip', '$e')))], original=se.v['s'][:200], loaded=sr.v['s'][:200], detail=str(detail)[:300], config='asan'))
+                self.viol(dict(clause=what, top=top, what=kind, build=cfg), dict(program=prog + [render(('emit', ('roundtrip', '$e')))], original=se.v['s'][:200], loaded=sr.v['s'][:200], detail=str(detail)[:300], config=cfg))
             if not probs and len(self.samples) < 5 and kind in ('shared', 'set', 'expr') and json.dumps(se.v['t']).count('[') >= 10:
                 self.sample(dict(expr=se.v['s'][:200], kind=kind, objects=a.v if a is not None and a.st == 'ok' else None))
-        self.min_evals = 5000
 
     def viol(self, key, wit):
         ks = str(sorted(key.items(), key=str))
